@@ -724,9 +724,9 @@ func ruleBC3(c *Ctx) {
 	}
 	// placeholder closure writes at the captured offset
 	if ph := c.FuncDecl("vm", "bytecode.placeholderUint16"); ph != nil {
-		s := sx(ph.Body.List)
-		okPh := strings.HasPrefix(s, "[(AssignStmt Lhs:[offset] Tok::= Rhs:[(CallExpr Fun:len Args:[(SelectorExpr b Sel:code)])]) (ExprStmt (CallExpr Fun:(SelectorExpr b Sel:emitUint16) Args:[0]))") &&
-			strings.Contains(s, "(CallExpr Fun:copy Args:[(SliceExpr (SelectorExpr b Sel:code) Low:offset Slice3:false)")
+		s := c.sxN(ph, ph.Body.List)
+		okPh := strings.HasPrefix(s, "[(AssignStmt Lhs:[$0] Tok::= Rhs:[(CallExpr Fun:len Args:[(SelectorExpr $r Sel:code)])]) (ExprStmt (CallExpr Fun:(SelectorExpr $r Sel:emitUint16) Args:[0]))") &&
+			strings.Contains(s, "(CallExpr Fun:copy Args:[(SliceExpr (SelectorExpr $r Sel:code) Low:$0 Slice3:false)")
 		c.R.Check(okPh, "vm.bytecode.placeholderUint16", "BC-4 patch writes the operand reserved at the captured offset", ph.Pos(), "offset := len(code); emit 0; closure copies into code[offset:]", "placeholder does not reserve and later overwrite exactly its own 2 operand bytes")
 	} else {
 		c.R.Anchor("vm.bytecode.placeholderUint16")
